@@ -20,7 +20,7 @@ import numpy as np
 import sim  # noqa: F401
 from checks import c05
 from sim import build
-from sim.core import attempt, exc_tag
+from sim.core import attempt, bulk_tier, exc_tag
 from sim.oracle import chaos, missed_tuple, snap, snap_diff
 
 PROPERTY = "C13"
@@ -28,7 +28,7 @@ LEVEL = "exploration"
 RUNS = {"quick": 40000, "thorough": 1000000}
 WALL = {"quick": 240, "thorough": 1500}
 PARTITIONS = [{"name": "default", "env": {}}]
-FAULT_KINDS = ["lossy_conversion_probe", "narrowing_probe", "mixed_dtype_arith", "float_weight_into_int",
+FAULT_KINDS = ["bulk_batch", "lossy_conversion_probe", "narrowing_probe", "mixed_dtype_arith", "float_weight_into_int",
                "int_float_subtraction", "refused_int_with_float_weights", "dtype_setter"]
 RULE = ("one run = 1-3 live histograms (1-2 D) created with dtypes drawn from all seven supported types, then a "
         "seeded history (<= 12) of fill / fill_n (int, float weights) / + / - / * / / / normalize / merge_bins / "
@@ -120,6 +120,12 @@ def generate(rng, seed, part):
         else:
             ops.append({"op": "set_dtype", "a": a, "to": rng.choice(ALL_DTYPES), "via": rng.choice(["method", "setter"]),
                         "prep": rng.choice([None, None, "fraction", "big", "huge"])})
+    if bulk_tier(rng):
+        # one batch of thousands of rows somewhere in the history (size-dependent paths of fill_n)
+        ops.insert(rng.randint(k, len(ops)),
+                   {"op": "fill_n", "a": rng.randrange(k), "idx": [rng.randrange(24) for _ in range(5)],
+                    "wkind": rng.choice(["none", "none", "int", "float", "float32", "int32"]),
+                    "rep": rng.choice([500, 1700, 1800])})
     return {"property": PROPERTY, "scenario": "dtype_history", "config": {"ndim": ndim, "axes": axes},
             "entries": entries, "ops": ops}
 
@@ -269,12 +275,15 @@ def execute(plan, ctx):
                               f"to {got!r} (dtype now {a.dtype}); the weight was not fully recorded")
         elif o == "fill_n":
             data = data_of(op["idx"])
+            if op.get("rep") and data.shape[0]:
+                data = np.tile(data, (int(op["rep"]), 1))
+                ctx.fault("bulk_batch")
             n = data.shape[0]
             wk = op["wkind"]
             kw = {}
             wsum = float(n)
             if wk != "none":
-                base = np.arange(1, n + 1)
+                base = np.arange(1, n + 1) if not op.get("rep") else (np.arange(n) % 2) + 1
                 w = {"int": base.astype(np.int64), "int32": base.astype(np.int32),
                      "float": base * 0.5, "float32": (base * 0.25).astype(np.float32)}[wk]
                 kw["weights"] = w
